@@ -1,6 +1,7 @@
 import SkgVerif.Lemmas.SpaceTime
 import SkgVerif.Gen.Tables
 import SkgVerif.Gen.Source
+import SkgVerif.Props.Transcribed.C14
 /-!
 # C14 — space-time experimental variogram = estimator over exactly each cell's pairs
 -/
